@@ -684,6 +684,13 @@ def cases(fx, tier, seed):
         return b
     add("enthalpy_sorption_whittaker", "model Toth(ch4) in Pa", model_pa("ch4", "Toth"), lambda o: pgc.enthalpy_sorption_whittaker(o["isotherm"]))
     add("enthalpy_sorption_whittaker", "model Henry: refused", model_pa("ch4", "Henry"), lambda o: pgc.enthalpy_sorption_whittaker(o["isotherm"]))
+    add("enthalpy_sorption_whittaker", "model Langmuir(ch4) in Pa", model_pa("ch4", "Langmuir"), lambda o: pgc.enthalpy_sorption_whittaker(o["isotherm"]))
+    add("enthalpy_sorption_whittaker", "model Langmuir(b298) in Pa,loading", model_pa("b298", "Langmuir"),
+        lambda o: pgc.enthalpy_sorption_whittaker(o["isotherm"], loading=[0.5, 1.0, 2.0]))
+    add("enthalpy_sorption_whittaker", "model Toth(tco2) in Pa,loading,verbose", model_pa("tco2", "Toth"),
+        lambda o: pgc.enthalpy_sorption_whittaker(o["isotherm"], loading=[1.0, 2.0], verbose=True), cache=False)
+    add("enthalpy_sorption_whittaker", "model Langmuir(ch4) in bar: refused", lambda: {"isotherm": fx.model("ch4", "Langmuir")},
+        lambda o: pgc.enthalpy_sorption_whittaker(o["isotherm"]), cache=False)
 
     # ---- model fitting
     quick_models = ["Henry", "Langmuir", "DSLangmuir", "Toth", "Virial"]
@@ -1032,6 +1039,45 @@ def cases(fx, tier, seed):
         cross=lambda o: _quiet(lambda: pk._load_kernel(bad())))
     add("t_plot", "mcm:SiO2 standard after an unknown model", one("mcm"), lambda o: pgc.t_plot(o["isotherm"], thickness_model=SIO2),
         cross=lambda o: _quiet(lambda: pgc.t_plot(o["isotherm"], thickness_model="no such")))
+
+    # ---- materials WITHOUT density / molar mass (a registered one, new per case, and an unregistered one): requests that need them are
+    #      refused, and the refusal must leave the material (no properties), the registry and the isotherm as they were
+    bare_n = [0]
+
+    def bare(registered, model=None):
+        def b():
+            from .iso_common import make_point
+            bare_n[0] += 1
+            name = f"purity_bare_{bare_n[0]}"
+            if registered:
+                pygaps.Material(name, store=True)
+            s0 = {"pm": "absolute", "pu": "bar", "lb": "molar", "lu": "mmol", "mb": "mass", "mu": "g", "tu": "K"}
+            iso = make_point(s0, "nitrogen", name, 77.344, [0.05, 0.1, 0.2, 0.4, 0.7, 0.9], [1.0, 1.8, 3.0, 4.4, 5.3, 5.7], meta={"operator": "verif"})
+            if model:
+                iso = pygaps.ModelIsotherm.from_pointisotherm(iso, model=model)
+            return {"isotherm": iso}
+        return b
+    VOL = dict(material_basis="volume", material_unit="cm3")
+    MOL = dict(material_basis="molar", material_unit="mmol")
+    bare_calls = [
+        ("Material.density", "getters", lambda i: [i.material.density, i.material.molar_mass]),
+        ("Material.get_prop", "density / molar_mass / unknown", lambda i: [outcome_of(lambda: i.material.get_prop("density"))["text"], outcome_of(lambda: i.material.get_prop("molar_mass"))["text"],
+                                                                            outcome_of(lambda: i.material.get_prop("nope"))["text"]]),
+        ("Material.to_dict", "no properties", lambda i: i.material.to_dict()),
+        ("loading", "per volume of material", lambda i: i.loading(**VOL) if hasattr(i, "data_raw") else i.loading(points=4, **VOL)),
+        ("loading", "per mole of material", lambda i: i.loading(**MOL) if hasattr(i, "data_raw") else i.loading(points=4, **MOL)),
+        ("loading", "fraction / percent", lambda i: [i.loading(loading_basis="fraction") if hasattr(i, "data_raw") else i.loading(points=4, loading_basis="fraction")]),
+        ("loading_at", "per volume of material", lambda i: i.loading_at(0.3, **VOL)),
+        ("pressure_at", "loading given per mole of material", lambda i: i.pressure_at(2.0, **MOL)),
+        ("plot_iso", "per volume of material", lambda i: plot_iso(i, **VOL)),
+        ("isotherm_to_json", "material without properties", lambda i: i.to_json()),
+    ]
+    for tag, b in (("registered bare material", bare(True)), ("unregistered bare material", bare(False)), ("Langmuir model, registered bare material", bare(True, "Langmuir"))):
+        for site, variant, f in bare_calls:
+            cls = "" if site.startswith(("Material", "plot_iso", "isotherm_to")) else ("ModelIsotherm." if "model" in tag else "PointIsotherm.")
+            add(cls + site, f"{tag}: {variant}", b, lambda o, f=f: f(o["isotherm"]), cache=False)
+    add("Material.density", "bare Material object", lambda: {"material": pygaps.Material("purity_bare_object")},
+        lambda o: [o["material"].density, o["material"].molar_mass, outcome_of(lambda: o["material"].get_prop("density"))["text"]], cache=False)
 
     # ---- adsorbate / material objects passed directly
     add("Adsorbate.to_dict", "nitrogen", lambda: {"adsorbate": pygaps.Adsorbate.find("nitrogen")}, lambda o: o["adsorbate"].to_dict(), cache=False)
